@@ -4,7 +4,7 @@ must equal those of B running alone."""
 import json, collections
 from p_sys import *
 
-def freeze_case(r, stage, ending):
+def freeze_case(r, stage, ending, intruder=False):
     cfg = mk_cfg(r, mpp_ms=120000)
     b = CaseBuilder(r, cfg, 2)
     pol = cfg["policy"]
@@ -40,6 +40,10 @@ def freeze_case(r, stage, ending):
     for p in pieces:
         b_events.append(b.htlc(invB, p, needB, expiry=2500, rel=pol[2] + 20))
         b_events += [{"e": "drain_step", "h": 1}] * r.below(3)
+    if intruder:
+        # an HTLC of hash B that carries A's invoice (a confused or hostile sender): it is not a trampoline HTLC of anybody, and
+        # in particular it must not touch A's payment
+        b_events.insert(r.below(len(b_events) + 1), b.htlc(invA, r.choice([1000, needA]), needA, expiry=2500, rel=pol[2] + 20, hash_idx=1))
     b_events += [{"e": "drain", "h": 1}]
     for e in pay_ending(r, ending):
         e = dict(e); e["h"] = 1; b_events.append(e)
@@ -47,21 +51,23 @@ def freeze_case(r, stage, ending):
     base = {"cfg": cfg, "invoices": b.invoices, "preimages": b.preimages, "family": "freeze/stage%d/%s" % (stage, ending)}
     both = dict(base, _script=a_events + b_events)
     solo = dict(base, _script=b_events)
-    return both, solo
+    solo_a = dict(base, _script=a_events) if intruder else None
+    return both, solo, solo_a
 
-def b_view(trace):
-    """What the implementation did for hash 1, as a sequence (uids renumbered by order of B's own HTLCs)."""
+def b_view(trace, hidx=1):
+    """What the implementation did for hash hidx, as a sequence (uids renumbered by order of that hash's own HTLCs)."""
     uid_map = {}
+    if hidx >= len(trace["hashes"]): return []
     for e in trace["events"]:
-        if e["e"] == "htlc" and e["req"]["htlc"]["payment_hash"] == trace["hashes"][1]:
+        if e["e"] == "htlc" and e["req"]["htlc"]["payment_hash"] == trace["hashes"][hidx]:
             uid_map[e["uid"]] = len(uid_map)
     out = []
     for e, s in zip(trace["events"], trace["steps"]):
         mine = []
         for o in s["out"]:
             if o["o"] == "resp" and o["uid"] in uid_map: mine.append(["resp", uid_map[o["uid"]], o["r"]])
-            elif o["o"] in ("call", "cancel", "notify") and o.get("h") == 1: mine.append([o["o"], o.get("c"), o.get("q")])
-        rep = s.get("reply") if e.get("h") == 1 else None
+            elif o["o"] in ("call", "cancel", "notify") and o.get("h") == hidx: mine.append([o["o"], o.get("c"), o.get("q")])
+        rep = s.get("reply") if e.get("h") == hidx else None
         if mine or rep is not None:
             out.append([sorted(json.dumps(m, sort_keys=True) for m in mine), rep])
     return out
@@ -71,7 +77,7 @@ def run(tier, seed):
     T = tier == "thorough"
     o.rule = ("two payment hashes: A is driven to one of 22 stages of its lifecycle (state fetch unanswered ... pay running, waiting on a part, sitting on its timer, each step of mark_failed after a failed pay and of mark_succeeded after a completed one) and frozen there "
               "(no RPC of A is processed or delivered) while B runs one of 11 payment stories to completion; the same B script is run alone; B's responses, RPC calls, cancels and node replies "
-              "must be identical. The two-hash trace is also replayed through the product model (correspondence) and all composite monitors. Non-trivial: A has at least one outstanding "
+              "must be identical; in a third of the cases one of B's HTLCs carries A's invoice and A's observations must equal those of A alone. The two-hash trace is also replayed through the product model (correspondence) and all composite monitors. Non-trivial: A has at least one outstanding "
               "RPC or armed timer while B pays; distinct = (stage, story, seed)")
     o.assumptions = list(COMMON_ASSUME)
     o.proof = proof_stage("C14", ["theories/Props/C14.vo", "theories/Check/SysMon.vo"])
@@ -84,17 +90,26 @@ def run(tier, seed):
     for rep in range(4 if T else 1):
         for stage in range(0, 22):
             for ending in (PAY_ENDINGS if T else [PAY_ENDINGS[(stage + i * 4) % len(PAY_ENDINGS)] for i in range(3)]):
-                pairs.append(freeze_case(r.fork(), stage, ending))
+                pairs.append(freeze_case(r.fork(), stage, ending, intruder=(len(pairs) % 3 == 2)))
     try:
-        cases = [c for p in pairs for c in p]
+        cases = [c for p in pairs for c in p if c is not None]
         keep, verdicts, skewed = run_traces(binary, cases, "C14")
     except RuntimeError as ex:
         o.corr_failures.append(("could not run/evaluate traces: %s" % str(ex)[-2000:], {}))
         return finish(o)
     by_case = {id(c): (t, v) for (c, t), v in zip(keep, verdicts)}
     fam = collections.Counter()
-    for both, solo in pairs:
+    for both, solo, solo_a in pairs:
         if id(both) not in by_case or id(solo) not in by_case: continue
+        if solo_a is not None and id(solo_a) in by_case:
+            # the other direction: A's observations must not depend on what B's HTLCs (one of them carrying A's invoice) do
+            (tb0, _), (ta, _) = by_case[id(both)], by_case[id(solo_a)]
+            va_, vsa_ = b_view(tb0, 0), b_view(ta, 0)
+            if va_ != vsa_:
+                k = next((i for i, (x, y) in enumerate(zip(va_, vsa_)) if x != y), min(len(va_), len(vsa_)))
+                o.monitor_failures.append(("%s: hash A's observations differ from its solo run at its %d-th action (an HTLC of hash B carries A's invoice): with B %s, alone %s" % (
+                    both["family"], k, json.dumps(va_[k] if k < len(va_) else None)[:300], json.dumps(vsa_[k] if k < len(vsa_) else None)[:300]),
+                    {"family": both["family"], "with_B": brief(tb0), "alone": brief(ta), "trace_with_B": tb0, "trace_alone": ta}))
         (tb, vb), (ts, vs) = by_case[id(both)], by_case[id(solo)]
         o.evaluations += 1; o.traces_validated += 2
         fam[both["family"].split("/")[1]] += 1
